@@ -245,10 +245,12 @@ def obligations(tier):
         for mk in kinds:
             for r in regs[:2] if tier == "quick" else regs[:4]:
                 obs.append(moment_ob(k, mk, r))
+    from .common import no_narrowing_ob
+    obs.append(no_narrowing_ob(model.load(), "dtype"))
     return obs
 
 
-FLOORS = {"group:moment": 100, "group:wiring": 2}
+FLOORS = {"group:moment": 100, "group:wiring": 2, "group:dtype": 1}
 LEVEL = "proof"
 EXPLANATION = ("Every key of GaussianMeasure.integration_dict is interpreted abstractly (source of measure.py, "
                "unmodified) on generic tensors with rigid sizes R,D,K,L,M and compared, as a normal form, with the "
